@@ -36,7 +36,8 @@ Emit == ((TLCGet("level") = Depth + 1 \/ Ended) /\ FewRej /\ EmitOK) =>
 StopAtEnd == ~Ended
 \* one representative history per distinct model state (for the checks that only need the states: C07, C18, C19)
 GVw == <<vAssets, vAssocs, vAtk>>
-EmitState == (hist # <<>> /\ ~Ended /\ FewRej /\ TLCGet("level") <= Depth) =>
+\* (the initial state has level 1: a state reached by Depth calls has level Depth + 1)
+EmitState == (hist # <<>> /\ ~Ended /\ FewRej /\ TLCGet("level") <= Depth + 1) =>
                PrintT(ToJson([lang |-> EnvOr("VERIF_LANG", "LTiny"), hist |-> hist, abs |-> AbsLegacy, neo |-> [nodes |-> NeoNodes, rels |-> NeoRels],
                               final |-> vAssets,
                               exp |-> IF EnvOr("VERIF_GRAPH", "0") = "1" THEN GraphExp(Lng, ModelVal, [k \in DOMAIN vAssets |-> vAssets[k].h])
